@@ -361,7 +361,7 @@ func (p *Parser) parseItem() (secs2.Item, error) {
 }
 
 func (p *Parser) parseList(size int) (secs2.Item, error) {
-	childItems := make([]secs2.Item, 0, size)
+	childItems := make([]secs2.Item, 0, min(size, len(p.data)))
 
 	for {
 		switch ch := p.peekNonSpaceRune(); ch {
@@ -419,7 +419,7 @@ func (p *Parser) parseASCIIStrict(size int) (secs2.Item, error) {
 	isNumStr := false
 	isEscapedCh := false
 	var sb strings.Builder
-	sb.Grow(size)
+	sb.Grow(min(size, len(p.data)))
 
 	for i, ch := range p.data {
 		switch {
@@ -670,7 +670,7 @@ func (p *Parser) parseLocalizedStr() (secs2.Item, error) {
 }
 
 func (p *Parser) parseBoolean(size int) (secs2.Item, error) {
-	items := make([]bool, 0, size)
+	items := make([]bool, 0, min(size, len(p.data)))
 	start := p.pos
 	values := p.getItemValueStrings()
 
@@ -689,7 +689,7 @@ func (p *Parser) parseBoolean(size int) (secs2.Item, error) {
 }
 
 func (p *Parser) parseBinary(size int) (secs2.Item, error) {
-	items := make([]byte, 0, size)
+	items := make([]byte, 0, min(size, len(p.data)))
 	start := p.pos
 	values := p.getItemValueStrings()
 
@@ -710,7 +710,7 @@ func (p *Parser) parseBinary(size int) (secs2.Item, error) {
 }
 
 func (p *Parser) parseFloat(byteSize int, size int) (secs2.Item, error) {
-	items := make([]float64, 0, size)
+	items := make([]float64, 0, min(size, len(p.data)))
 	start := p.pos
 	values := p.getItemValueStrings()
 
@@ -731,7 +731,7 @@ func (p *Parser) parseFloat(byteSize int, size int) (secs2.Item, error) {
 }
 
 func (p *Parser) parseInt(byteSize int, size int) (secs2.Item, error) {
-	items := make([]int64, 0, size)
+	items := make([]int64, 0, min(size, len(p.data)))
 	start := p.pos
 	values := p.getItemValueStrings()
 
@@ -752,7 +752,7 @@ func (p *Parser) parseInt(byteSize int, size int) (secs2.Item, error) {
 }
 
 func (p *Parser) parseUint(byteSize int, size int) (secs2.Item, error) {
-	items := make([]uint64, 0, size)
+	items := make([]uint64, 0, min(size, len(p.data)))
 	start := p.pos
 	values := p.getItemValueStrings()
 
